@@ -6,7 +6,7 @@ import subprocess
 import sys
 
 from vlib.driver import Ob
-from vlib.harness import REPO, assemble, image
+from vlib.harness import REPO, assemble, image, stmt_bytes, symbols
 from . import meta
 import cocoasm.instruction as _ins
 import cocoasm.virtualfiles.coco_file as _cf
@@ -16,13 +16,15 @@ PID = "C17"
 BOUNDS = ("product runs in one interpreter: out0 = asm(P,v); asm(Q1); asm(Q2); out1 = asm(P,v) with P from 3 program "
           "templates (symbolic origin and operands), Q from accepted and rejected programs (rejected in the parse, symbol "
           "and translation phases); out0 == out1 asserted on integer observations (addresses, sizes, bytes, symbols, origin, "
-          "name) for all values; the list of source lines is unchanged; module-level mutable state (INSTRUCTIONS, default "
+          "name) for all values; programs that spell every operand (immediate, extended, indexed offset, FCB/FDB list items) "
+          "alike but bind the names to other values / statement indices / addresses, accepted and rejected, each accepted run "
+          "held against the arithmetic value of its own bindings (symbolic EQU values 20..120); the list of source lines is unchanged; module-level mutable state (INSTRUCTIONS, default "
           "argument instances of CodePackage / CoCoFile) is unchanged at the end of every path.  Enumerated, NOT decided by "
           "the solver: fresh process vs warm process and 3 PYTHONHASHSEEDs on concrete members (listing, symbol table, image); "
           "listing/symbol-table/image STRINGS of P before and after 15 history programs (long labels, BOM, tabs, CRLF, 300 "
           "statements ...), each history program's own list of lines unchanged, and a snapshot of every class attribute and "
           "module global of cocoasm.* (mutable or not)")
-OUTSIDE = "more than two intervening programs; programs outside the three templates"
+OUTSIDE = "more than three intervening programs; programs outside the three templates and the re-binding template"
 ASSUMPTIONS = []
 
 REJECTED = {
@@ -194,6 +196,79 @@ def make(pname, qnames):
         return ctx.known(PID, {"part": "product"}, {"fault": fault}), info
     return Ob("C17:product:%s:%s" % (pname, "+".join(qnames) or "none"), body, timeout=600, tags={"part": "product"},
               text="asm(%s); %s; asm(%s)" % (pname, "; ".join("asm(%s)" % q for q in qnames), pname))
+
+
+def _rebind_lines(ktext, pad, reject=False):
+    """the same operand TEXTS under different bindings: SIZE has another value and (pad) every label sits at another
+    statement index and address.  -> (lines, {statement index: function(k, symbols) -> expected bytes})"""
+    head = [" ORG $2000", "SIZE EQU %s" % ktext] + [" NOP"] * pad
+    body = ["START LDA #SIZE+1", " LDX #TABLE+2", " STA SIZE+1,X", " LDD TABLE+2", " CMPX #START+1", " FCB 1,SIZE+1,3", " FDB 0,TABLE+2",
+            " FDB SIZE*2,SIZE+1", " FCB SIZE-1,SIZE+1", "TABLE FDB START,SIZE", " FDB START+1,TABLE-1", " RTS"]
+    if reject:
+        body.append(" FDB 1,NOWHERE+1")
+    b = len(head)
+    w = lambda v: [(v >> 8) & 255, v & 255]                                     # noqa: E731
+    exp = {
+        b + 0: lambda k, sy: [0x86, k + 1],
+        b + 1: lambda k, sy: [0x8E] + w(sy["TABLE"] + 2),
+        b + 2: lambda k, sy: [0xA7, 0x88, k + 1],
+        b + 3: lambda k, sy: [0xFC] + w(sy["TABLE"] + 2),
+        b + 4: lambda k, sy: [0x8C] + w(sy["START"] + 1),
+        b + 5: lambda k, sy: [1, k + 1, 3],
+        b + 6: lambda k, sy: [0, 0] + w(sy["TABLE"] + 2),
+        b + 7: lambda k, sy: w(k * 2) + w(k + 1),
+        b + 8: lambda k, sy: [k - 1, k + 1],
+        b + 9: lambda k, sy: w(sy["START"]) + w(k),
+        b + 10: lambda k, sy: w(sy["START"] + 1) + w(sy["TABLE"] - 1),
+    }
+    return [l + "\n" for l in head + body], exp, 0x2000 + pad
+
+
+def make_rebind(sid, seq):
+    """programs that spell every operand alike but bind the names differently (another EQU value, every label at another
+    statement index and address), assembled one after the other in one interpreter - accepted and rejected ones; every
+    accepted run is held against the arithmetic value of its OWN bindings (an absolute oracle: a binding kept from an
+    earlier program shows even when the first and the last run agree with each other)"""
+    def body(ctx):
+        ks = {}
+        for name in sorted(set(n for n, _pad, _rej in seq)):
+            t, v = ctx.lit("D3", name)
+            ctx.assume(20 <= v)
+            ctx.assume(v <= 120)
+            ks[name] = (t, v)
+        before = snapshot()
+        info = {"sequence": [(n, pad, rej) for n, pad, rej in seq], "fault": None}
+        for step, (name, pad, rej) in enumerate(seq):
+            t, k = ks[name]
+            lines, exp, start = _rebind_lines(t, pad, rej)
+            out = assemble(lines)
+            if rej:
+                if out.kind != "diag":
+                    info["fault"] = "step %d: a program with an undefined name was not rejected (%s)" % (step, out.describe())
+                    break
+                continue
+            if not out.ok:
+                info["fault"] = "step %d: rejected: %s" % (step, out.describe())
+                break
+            sy = symbols(out.program)
+            if sy.get("START") != start or sy.get("SIZE") != k:
+                info["fault"] = "step %d: symbol table START/SIZE" % step
+                break
+            for idx, f in exp.items():
+                got = stmt_bytes(out.program.statements[idx])
+                want = f(k, sy)
+                if len(got) != len(want) or got != want:
+                    info["fault"] = "step %d (%s, %d statements in front): %r emitted %r" % (step, name, pad, lines[idx].strip(), list(got))
+                    break
+            if info["fault"]:
+                break
+        if info["fault"] is None and snapshot() != before:
+            info["fault"] = "module-level state changed"
+        if info["fault"] is None:
+            return True, info
+        return ctx.known(PID, {"part": "rebind"}, {"fault": info["fault"]}), info
+    return Ob("C17:rebind:" + sid, body, timeout=600, tags={"part": "rebind"},
+              text="same operand texts, other bindings: " + "; ".join("asm(%s%s%s)" % (n, "+%d" % pad if pad else "", " rejected" if rej else "") for n, pad, rej in seq))
 
 
 LIB = ["DELAY LDB #{v}", "DLOOP DECB", " BNE DLOOP", " JMP DDONE", " NOP", "DDONE RTS"]
@@ -423,6 +498,8 @@ def obligations(tier, seed):
     for pname, prog in meta.PROGRAMS.items():
         obs.append(make_history(pname, {k: (lo + hi) // 2 for k, (cls, lo, hi) in prog["lits"].items()}))
     obs.append(make_realfs_history())
+    obs.append(make_rebind("A-B-A", [("ka", 0, False), ("kb", 3, False), ("ka", 0, False)]))
+    obs.append(make_rebind("A-rejB-B", [("ka", 2, False), ("kb", 0, True), ("kb", 1, False)]))
     obs.append(make_process_ties())
     obs.append(make_include("P-P", []))
     obs.append(make_include("P-Q-P", ["Q"]))
